@@ -11,11 +11,11 @@ pub fn enum_is_inner(ast: &DeriveInput) -> syn::Result<TokenStream> {
     let (impl_generics, ty_generics, where_clause) = ast.generics.split_for_impl();
 
     let enum_name = &ast.ident;
-    let variants: Vec<_> = variants
+    let variants = variants
         .iter()
-        .filter_map(|variant| {
-            if variant.get_variant_properties().ok()?.disabled.is_some() {
-                return None;
+        .map(|variant| {
+            if variant.get_variant_properties()?.disabled.is_some() {
+                return Ok(None);
             }
 
             let variant_name = &variant.ident;
@@ -24,7 +24,7 @@ pub fn enum_is_inner(ast: &DeriveInput) -> syn::Result<TokenStream> {
                 "Returns [true] if the enum is [{}::{}] otherwise [false]",
                 enum_name, variant_name
             );
-            Some(quote! {
+            Ok(Some(quote! {
                 #[must_use]
                 #[inline]
                 #[doc = #doc_comment]
@@ -34,9 +34,10 @@ pub fn enum_is_inner(ast: &DeriveInput) -> syn::Result<TokenStream> {
                         _ => false
                     }
                 }
-            })
+            }))
         })
-        .collect();
+        .collect::<syn::Result<Vec<Option<TokenStream>>>>()?;
+    let variants = variants.into_iter().flatten();
 
     Ok(quote! {
         impl #impl_generics #enum_name  #ty_generics #where_clause {
